@@ -258,7 +258,7 @@ def copyval(v):
     if isinstance(v, list):
         return [copyval(x) for x in v]
     if isinstance(v, Arr):
-        return Arr(v.n, v.default, dict(v.d))
+        return v.clone() if hasattr(v, 'clone') else Arr(v.n, v.default, dict(v.d))
     if isinstance(v, Enum):
         return Enum(v.variant, [copyval(x) for x in v.fields])
     return v
@@ -308,8 +308,9 @@ def parse_mir(text):
     fns = []
     cur = None
     bb = None
+    pending_asm = None
     for line in text.split('\n'):
-        if line.startswith('fn '):
+        if line.startswith('fn ') and pending_asm is None:
             m = re.match(r'fn (.*?)\((.*)\) -> (.*) \{$', line)
             if not m:
                 raise Unsupported('fn header ' + line)
@@ -365,6 +366,15 @@ def parse_mir(text):
             cur.blocks[m.group(1)] = bb
             continue
         s = line.strip()
+        if bb is not None and pending_asm is not None:
+            pending_asm.append(line)
+            if re.search(r'-> \[return: bb\d+, unwind[^\]]*\];$|-> unwind[^;]*;$', s):
+                bb.append('\n'.join(pending_asm).strip())
+                pending_asm = None
+            continue
+        if bb is not None and s.startswith('asm!(') and not re.search(r'-> \[return: bb\d+, unwind[^\]]*\];$', s):
+            pending_asm = [s]
+            continue
         if bb is not None and s and s != '}' and not s.startswith(('debug ', 'scope ', 'let ')):
             bb.append(s)
     return fns
@@ -509,6 +519,11 @@ def parse_rvalue(s):
     m = re.match(r'^(\w+)$', s)
     if m:
         return ('variant', '', m.group(1), [])
+    m = re.match(r'^([A-Za-z_]\w*)\((.*)\)$', s)
+    if m and m.group(1) not in BINOPS and m.group(1) not in UNOPS:
+        parts = split_top(m.group(2))
+        if all(p.strip().startswith(('copy ', 'move ', 'const ')) for p in parts):
+            return ('struct', m.group(1), [parse_operand(p) for p in parts])      # tuple-struct constructor
     raise Unsupported('rvalue ' + s)
 
 
@@ -577,6 +592,29 @@ def parse_stmt(s):
     m = re.match(r'^drop\((.*)\) -> \[return: (bb\d+), unwind.*\];$', s)
     if m:
         return ('drop', parse_place(m.group(1)), m.group(2))
+    if s.startswith('asm!('):
+        m = re.match(r'^asm!\("((?:[^"\\]|\\.)*)"(.*)\) -> \[return: (bb\d+), unwind[^\]]*\];$', s, re.S)
+        if not m:
+            raise Unsupported('asm statement ' + s[:80])
+        ops = []
+        for o in split_top(m.group(2)):
+            o = o.strip()
+            if not o:
+                continue
+            if o.startswith('options('):
+                ops.append(('options', o[8:-1]))
+                continue
+            mo = re.match(r'^(in|out|lateout|inout|inlateout)\(("?\w+"?)\) (.*)$', o, re.S)
+            if not mo:
+                raise Unsupported('asm operand ' + o)
+            kind, reg, rest = mo.group(1), mo.group(2).strip('"'), mo.group(3).strip()
+            if kind == 'in':
+                ops.append(('in', reg, parse_operand(rest)))
+            elif kind in ('out', 'lateout'):
+                ops.append(('out', reg, None if rest == '_' else parse_place(rest)))
+            else:
+                raise Unsupported('asm operand kind ' + kind)
+        return ('asm', m.group(1), ops, m.group(3))
     c = _parse_call(s)
     if c is not None:
         return c
@@ -588,9 +626,10 @@ def parse_stmt(s):
 
 # ------------------------------------------------------------------ engine
 class Machine:
-    def __init__(self, prog, timeout_ms=3000):
+    def __init__(self, prog, timeout_ms=None):
         self.prog = prog            # Program
         self.solver = z3.Solver()
+        timeout_ms = timeout_ms or getattr(prog, 'solver_timeout_ms', 3000)
         self.solver.set('timeout', timeout_ms)
         self.pc = []
         self.prefix = []
@@ -791,6 +830,8 @@ class Machine:
     def binop(self, op, a, b):
         if op == 'Offset':
             raise Unsupported('pointer offset')
+        if hasattr(a, 'fp') or hasattr(b, 'fp'):
+            return self.prog.float_binop(self, op, a, b)
         if isinstance(a, (bool, z3.BoolRef)) or isinstance(b, (bool, z3.BoolRef)):
             if isinstance(a, bool) and isinstance(b, bool):
                 r = {'Eq': a == b, 'Ne': a != b, 'BitAnd': a and b, 'BitOr': a or b, 'BitXor': a != b,
@@ -994,6 +1035,8 @@ class Machine:
         if k == 'cast':
             kind, ty, opnd = rv[1], rv[2], rv[3]
             v = self.operand(fr, opnd)
+            if kind in ('IntToFloat', 'FloatToInt', 'FloatToFloat'):
+                return self.prog.float_cast(self, kind, ty, v)
             if kind == 'IntToInt':
                 return self.cast_int(v, self.prog.subst_type(ty, fr.subst))
             if kind == 'PointerCoercion':
@@ -1086,6 +1129,10 @@ class Machine:
                     if not self.branch_bool(v):
                         raise Panic('assert failed: ' + st[3][:80], 'assert')
                     nxt = st[4]
+                    break
+                if k == 'asm':
+                    self.prog.on_asm(self, fr, st[1], st[2])
+                    nxt = st[3]
                     break
                 if k == 'drop':
                     self.prog.on_drop(self, fr, self.lookup(fr, st[1]).load())
@@ -1215,6 +1262,15 @@ class Program:
 
     def discr_of(self, variant):
         raise Unsupported('discriminant of variant ' + variant)
+
+    def float_binop(self, m, op, a, b):
+        raise Unsupported('floating-point operation ' + op)
+
+    def float_cast(self, m, kind, ty, v):
+        raise Unsupported('cast kind ' + kind)
+
+    def on_asm(self, m, fr, template, operands):
+        raise Unsupported('inline assembly')
 
     def on_drop(self, m, fr, v):
         if self.drop_hook:
